@@ -172,6 +172,11 @@ impl Peer {
         }
         true
     }
+    /// abortive close (RST): used when an execution ends, leaves no TIME_WAIT behind
+    pub fn reset(&mut self) {
+        let l = libc::linger { l_onoff: 1, l_linger: 0 };
+        unsafe { libc::setsockopt(self.sock.as_raw_fd(), libc::SOL_SOCKET, libc::SO_LINGER, &l as *const _ as *const libc::c_void, std::mem::size_of::<libc::linger>() as u32); }
+    }
     pub fn close(&mut self) {
         if !self.closed {
             let _ = self.sock.shutdown(std::net::Shutdown::Both);
@@ -237,15 +242,37 @@ async fn epmd_task(l: tokio::net::TcpListener, peer_port: u16, log: Arc<Mutex<Ve
     }
 }
 
+/// Listening sockets owned by one worker thread for its whole life (binding two fresh ports per
+/// execution exhausts the ephemeral range after some ten thousand executions).
+pub struct Listeners {
+    pub peer: std::net::TcpListener,
+    pub epmd: std::net::TcpListener,
+}
+
+impl Listeners {
+    pub fn new() -> Listeners {
+        let peer = std::net::TcpListener::bind("127.0.0.1:0").expect("bind peer listener");
+        peer.set_nonblocking(true).unwrap();
+        let epmd = std::net::TcpListener::bind("127.0.0.1:0").expect("bind epmd listener");
+        epmd.set_nonblocking(true).unwrap();
+        Listeners { peer, epmd }
+    }
+}
+
 impl World {
     /// Must be called inside the execution's runtime.
-    pub async fn new(heartbeat: Arc<AtomicU64>) -> World {
+    pub async fn new(heartbeat: Arc<AtomicU64>, ls: &Listeners) -> World {
         let gates = Gates::new();
         edp_client::verif::install(gates.clone());
-        let peer_listener = std::net::TcpListener::bind("127.0.0.1:0").unwrap();
+        let peer_listener = ls.peer.try_clone().expect("clone peer listener");
         peer_listener.set_nonblocking(true).unwrap();
+        // connections left over from an earlier execution of this worker are not ours
+        while let Ok((s, _)) = peer_listener.accept() { drop(s); }
         let peer_port = peer_listener.local_addr().unwrap().port();
-        let el = tokio::net::TcpListener::bind("127.0.0.1:0").await.unwrap();
+        let estd = ls.epmd.try_clone().expect("clone epmd listener");
+        estd.set_nonblocking(true).unwrap();
+        while let Ok((s, _)) = estd.accept() { drop(s); }
+        let el = tokio::net::TcpListener::from_std(estd).expect("tokio listener");
         let epmd_port = el.local_addr().unwrap().port();
         gates.set_epmd_port(epmd_port);
         let epmd_requests = Arc::new(Mutex::new(vec![]));
@@ -321,6 +348,12 @@ impl World {
             if now == last { stable += 1; } else { stable = 0; last = now; }
             rounds += 1;
         }
+    }
+}
+
+impl Drop for Peer {
+    fn drop(&mut self) {
+        if !self.closed { self.reset(); }
     }
 }
 
